@@ -30,6 +30,7 @@ func TestC16RepeatInterval(t *testing.T) {
 	defer guard.Unpatch()
 	hbLay, _ := ref.LayoutOf(refTypeOf(&minimal.MessageHeartbeat{}))
 	evid.Check(t, rec, evid.N(40, 200), func(t *rapid.T) {
+		drawNodeInit(t)
 		atomic.StoreInt64(&offset, 0)
 		within := rapid.SliceOfN(rapid.IntRange(1, 29900), 1, 3).Draw(t, "within_ms")
 		jump := rapid.IntRange(30100, 90000).Draw(t, "jump_ms")
@@ -38,7 +39,7 @@ func TestC16RepeatInterval(t *testing.T) {
 		p := sim.NewPipe()
 		n := &gomavlib.Node{Endpoints: []gomavlib.EndpointConf{gomavlib.EndpointCustom{ReadWriteCloser: p}}, Dialect: ardupilotmega.Dialect,
 			OutVersion: gomavlib.V2, OutSystemID: nodeSys, HeartbeatDisable: true, StreamRequestEnable: true}
-		if err := n.Initialize(); err != nil {
+		if err := initNode(&n); err != nil {
 			t.Fatalf("BROKEN: %v", err)
 		}
 		r := sim.StartRecorder(n, sim.Pacing{Kind: "fast"}, nil)
